@@ -28,7 +28,8 @@ def main():
             open(p, 'w').write(s.replace(m['old'], m['new']))
             unit = V.load_unit(os.path.join(HERE, '..', 'vx', 'contracts', m['unit'] + '.py'))
             hit = []; status = []
-            for cfg in m.get('cfgs', [{'forbid_unsafe': False}, {'forbid_unsafe': True}] if m['unit'] == 'v_src' else [{}]):
+            for cfg in m.get('cfgs', [{'forbid_unsafe': False}, {'forbid_unsafe': True}] if m['unit'] in ('v_src', 'v_skip') else [{}]):
+                cfg = dict(cfg); cfg.setdefault('verif_hooks', False)
                 r = V.run_one(unit, repo, work, cfg)
                 status.append(r['status'] + ('' if r['status'] != 'undecided' else ':' + str(r.get('reason'))[:200]))
                 hit += ['%s/%s' % (f['fn'], f['clause'] or f['message']) for f in r['failures']]
